@@ -92,6 +92,22 @@ Theorem C38_unguarded_site_refuted : caller_decode false false = Some UnicodeErr
 Proof. exact unguarded_site_leaks. Qed.
 Print Assumptions C38_unguarded_site_refuted.
 
+(* Caller-thread code runs concurrently with - and after - the transport thread: an attribute it
+   dereferences (`self.auth_handler.wait_for_response(..)`, `self.packetizer...`, `self.sock...`;
+   generated list) is never one the transport thread sets to None / deletes / reassigns on its way
+   out (generated list), so those dereferences cannot turn into AttributeError. *)
+Theorem C38_no_cleared_deref :
+  forall a, In a caller_derefs -> caller_deref (mem_name a thread_clears) = None.
+Proof. exact cleared_not_dereferenced. Qed.
+Print Assumptions C38_no_cleared_deref.
+
+Theorem C38_cleared_deref_refuted : caller_deref true = Some AttrErr /\ allowed AttrErr = false.
+Proof. exact cleared_deref_leaks. Qed.
+Print Assumptions C38_cleared_deref_refuted.
+
+Example C38_derefs_nonvacuous : mem_name [97; 117; 116; 104; 95; 104; 97; 110; 100; 108; 101; 114] caller_derefs = true.
+Proof. vm_compute. reflexivity. Qed.
+
 Example C38_guards_nonvacuous :
   session_guards <> [] /\ forall g, In g session_guards -> api_guarded (snd g) true true = Returns.
 Proof. split; [vm_compute; discriminate | exact session_guards_pass]. Qed.
